@@ -229,6 +229,9 @@ class SymCtx:
         self.obligations = 0
         self.discharged = 0
         self.path_index = 0
+        self.export_every = 0       # >0: export every n-th discharged
+        self.exports = []           # obligation as SMT-LIB2 (second opinion)
+        self.max_exports = 12
         self._reset()
 
     def _reset(self):
@@ -380,6 +383,14 @@ class SymCtx:
             model = self.eng.find_model(z3.Not(cond))
             if model is None:
                 self.discharged += 1
+                self.solver_discharged = getattr(self, 'solver_discharged',
+                                                 0) + 1
+                if (self.export_every and len(self.exports) < self.max_exports
+                        and self.solver_discharged % self.export_every == 1):
+                    s2 = z3.Solver()
+                    s2.add(self.eng.pc())
+                    s2.add(z3.Not(cond))
+                    self.exports.append(s2.to_smt2())
                 return
         self.viol_count += 1
         k = key or label
